@@ -20,3 +20,8 @@ BOUNDED = [EngineVsStatement("beat_at", k) for k in range(EngineVsStatement.PART
 witness_search = engine_witness(["beat_at"])
 from props.engine_common import engine_xchecks
 THOROUGH_BOUNDED = engine_xchecks(["beats_until"])
+
+
+# supplier units (see props/suppliers.py): the state list beat_at searches is built by the units of C11
+from props import suppliers as _S   # noqa: E402
+UNITS = _S.extend(UNITS, _S.engine_core())
